@@ -395,8 +395,10 @@ def run_property(pid: str, tier: str) -> int:
         "wall_s": round(wall, 2),
         "violations": len(violations),
     }
-    os.makedirs(os.path.join(VERIF, "evidence"), exist_ok=True)
-    with open(os.path.join(VERIF, "evidence", f"{pid}.json"), "w") as fh:
+    # VERIF_EVIDENCE_DIR: development only (runs against seeded changes must not overwrite the registered evidence)
+    ev_dir = os.environ.get("VERIF_EVIDENCE_DIR") or os.path.join(VERIF, "evidence")
+    os.makedirs(ev_dir, exist_ok=True)
+    with open(os.path.join(ev_dir, f"{pid}.json"), "w") as fh:
         json.dump(ev, fh, indent=1, default=str)
         fh.write("\n")
 
